@@ -4,6 +4,7 @@ CONSTANTS
  IdReqs = {3}
  Batch2 = {2}
  Deviations = {"CheckpointOutsideLock"}
+ FailChoices = {{}}
  MaxHist = 0
  defaultInitValue = 0
 INVARIANTS Safe
